@@ -568,7 +568,7 @@ def walk_stream(ck, cases, comp):
                 sc = "(Scope.mkScope %s (Scope.mkFrame [] []) None [] [])" % coq_root
                 exprs.append("(match found_at %s %s %s [%s] ([], %s) with Some p => (1%%N, p) | None => (0%%N, []) end)"
                              % (cfg, coq_mods, sc, "; ".join(_cs(x) for x in b_path), _cs(a_name)))
-                meta.append((c, lab, q, "table", a_path))
+                meta.append((c, lab, q, "table", a_path, a_name))
             else:
                 # the frame at the call site of the outer function: closed after a select / aggregate / group / distinct, two wildcard
                 # inputs after a join of the bare tables, else the one wildcard table
@@ -588,9 +588,9 @@ def walk_stream(ck, cases, comp):
                 sc = "(Scope.mkScope %s %s None [] [])" % (coq_root, frame)
                 exprs.append("(2%%N, [[N.of_nat (show_resolved (body_ref %s %s %s DFunction [%s] [] ([], %s))); N.of_nat (show_resolved (body_ref %s %s %s DLetTable [%s] [] ([], %s)))]])"
                              % (cfg, coq_mods, sc, "; ".join(_cs(x) for x in b_path), _cs(a_name), cfg, coq_mods, sc, "; ".join(_cs(x) for x in b_path), _cs(a_name)))
-                meta.append((c, lab, q, "func", None))
+                meta.append((c, lab, q, "func", None, a_name))
     vals = coq_eval(WALK_HEADER, exprs) if exprs else []
-    for (c, lab, q, what, a_path), v in zip(meta, vals):
+    for (c, lab, q, what, a_path, a_name), v in zip(meta, vals):
         text = q.prql()
         a = comp.get((text, "sql.sqlite")) or {}
         ck.count("walk", text)
@@ -603,7 +603,7 @@ def walk_stream(ck, cases, comp):
             if got != a_path or not bound:
                 ck.violation("module walk: Model/ModuleWalk.found_at says the reference is found in module %s (expected %s) and the compiler %s: %s"
                              % (got, a_path, "binds it to the sibling" if bound else ("reads a database table of that name" if "ok" in a else "rejects the program"), text.replace("\n", " | ")[:300]),
-                             {"kind": "walk", "label": lab, "rewritten": text, "model": repr(v), "compile": a if "ok" not in a else "ok"})
+                             {"kind": "walk", "label": lab, "rewritten": text, "model": repr(v), "target_table": a_name, "compile": a})
         else:
             at_call, at_decl = (v[1][0][0], v[1][0][1]) if v else (None, None)
             reasons = " ".join(str(e.get("reason")) for e in a.get("err", [])) if "ok" not in a else ""
